@@ -9,7 +9,7 @@ from ..harness import Violation
 ID = "C16"
 LEVEL = "exploration"
 RULE = ("Differential: every Hypothesis-generated scenario (operation sequences x model filesystem x device choice tape x maxdata x auth mode x read fragmentation x "
-        "short-write capacities x optional transport fault at call index k x optional stall plan x timeouts) is executed once through AdbDevice and once through AdbDeviceAsync "
+        "short-write capacities x optional transport fault at call index k x optional stall plan x optional corruption of one device packet (payload byte, checksum field, checksum field of a header-only packet, command word) x timeouts incl. timeout_s=0 x optional second connect()) is executed once through AdbDevice and once through AdbDeviceAsync "
         "against identical simulators. Oracle: equal host->device packet sequences, equal results, equal exception type names per operation, equal availability after every "
         "operation. A second part plays one generated peer script to TcpTransport and TcpTransportAsync over loopback (see C18). Non-trivial: >= 2 operations, or a fault/stall/auth plan. Distinct = case hash.")
 ASSUMPTIONS = ["device decisions are indexed by device event, not by host read, so both runs face the same adversary", "in-memory transports; virtual clock"]
@@ -21,7 +21,10 @@ FAULT_KINDS = ["r_timeout", "r_reset", "eof", "r_short_raise", "r_short_eof", "w
 def cases(draw):
     case = draw(sc.session(max_ops=5, with_frag=True, with_wcap=True))
     case.pop("api", None)
-    plan = draw(st.sampled_from(["none", "none", "fault", "stall", "auth", "fail"]))
+    plan = draw(st.sampled_from(["none", "none", "fault", "stall", "auth", "fail", "corrupt"]))
+    if plan == "corrupt":
+        case["transport"]["corrupt"] = {"k": draw(st.integers(0, 10)), "mode": draw(st.sampled_from(["byte", "hdr", "hdr-zero", "hdr-empty", "hdr-empty", "cmd"])),
+                                        "pos": draw(st.integers(0, 3000)), "val": draw(st.integers(0, 2 ** 32 - 1)), "fix_magic": draw(st.booleans())}
     if plan == "fault":
         case["transport"]["faults"] = {str(draw(st.integers(0, 120))): draw(st.sampled_from(FAULT_KINDS))}
     elif plan == "stall":
@@ -120,6 +123,8 @@ def _plan_of(case):
         return "fault"
     if t.get("stall"):
         return "stall"
+    if t.get("corrupt"):
+        return "corrupt"
     if case["device"].get("auth"):
         return "auth"
     return "none"
